@@ -748,6 +748,9 @@ def mapping_config(world, **overrides):
             ta[k] = o.pop(k)
     if ta['bootstrap_factor_lookup'] is not None:
         ta['bootstrap_factor'] = None
+        if isinstance(ta['bootstrap_factor_lookup'], dict):
+            # the schema's form: a list of (level, factor) pairs
+            ta['bootstrap_factor_lookup'] = [[k, v] for k, v in ta['bootstrap_factor_lookup'].items()]
     cfg = dict(
         query_path=o.pop('query_path', world.query_path),
         precomputed_stats={'path': o.pop('precomputed_path', world.precomputed_path)},
